@@ -26,11 +26,14 @@ Lemma gen_step : forall hn m d,
 Proof.
   intros hn m d. unfold K_einfo.step, tb_step.
   destruct hn; [|reflexivity].
-  cbn [py_le py_lt py_gt py_ge cmp arith as_int py_add py_sub mk_recurse py_not py_eq truth negb].
-  destruct (d <=? m) eqn:E; cbn;
+  unfold py_le, py_lt, py_gt, py_ge, py_ne, py_eq, py_not, py_add, py_sub, py_neg,
+    mk_recurse, py_ifexp, py_and, py_or, cmp, arith;
+    cbn [as_int truth negb is_err].
+  destruct (d <=? m) eqn:E; cbn [emb_action];
     repeat match goal with
-           | |- context [if ?b then _ else _] => destruct b eqn:?; cbn
-           end; try reflexivity; try (f_equal; f_equal; lia); try lia.
+           | |- context [if ?b then _ else _] => destruct b eqn:?
+           end;
+    try reflexivity; try lia; try (f_equal; f_equal; lia); try (f_equal; lia).
 Qed.
 
 Lemma gen_marker :
